@@ -57,6 +57,7 @@ func runDadapt(line, text string) core.Outcome {
 		}
 		sideOutputTags(first, r, &o)
 	}
+	checkDropped(line, text, first, &o)
 	if first.accepted() {
 		// strict: the merged shapes must load (decode + provision + validate), not only decode
 		checkValid(line, text, first.json, false, &o)
